@@ -34,6 +34,12 @@ def run(ctx: evid.Ctx) -> None:
             ctx.violation(k, e["what"], {"role": role, "K": 10**9, "history": [list(x) for x in e["history"]]}, e["count"])
     # the TLA+ model of the documented life cycle: TLC checks the clauses on the model, the product search binds it to the code
     tlalc.check(ctx, PROP, ROLES, 3 if ctx.tier == "thorough" else 2)
+    if ctx.tier == "thorough":
+        # the clauses TLC checks are not vacuous: every listed edit of the model must be rejected on the expected clause
+        rejected, problems = tlalc.model_sensitivity()
+        ctx.add("model_edits_rejected_by_tlc", rejected)
+        if problems:
+            raise RuntimeError("tla/Lifecycle.tla: " + "; ".join(problems))
     ctx.counters["evaluations"] = ctx.counters.get("transitions", 0)
     ctx.rule = (
         "explicit-state BFS to a fixpoint over one real session; a state is (structural freeze of the session object, "
